@@ -46,9 +46,43 @@ def judgeV (names oldSX newSX go : String) : Verdict :=
       else .modelDiff model tags
   | _, _ => .skip "unreadable-sx"
 
+/-- an interface declaration nested in the root lost one of its conformances (by identifier) -/
+def ifaceConformanceDropped (o n : Decl) : Bool :=
+  o.interfaces.any fun oi =>
+    match n.interfaces.find? (fun ni => ni.name == oi.name) with
+    | none => false
+    | some ni => oi.confs.any fun oc => !(ni.confs.any fun nc => nc.id == oc.id && nc.nested == oc.nested)
+
+/-- `update e2e …`: the full path (deploy old, store values, update, inspect the stored values with the
+new code).  Direct oracle, independent of the model: an accepted update after which a check of the stored
+values fails (`accepted bad=…`) violates the property.  Otherwise the outcome of `contracts.update` is
+compared with the model's verdict. -/
+def judgeE2E (oldSX newSX go : String) : Verdict :=
+  if oldSX == "-" || newSX == "-" then .skip "parse-error" else
+  match SX.parse oldSX >>= readProgram, SX.parse newSX >>= readProgram with
+  | some o, some n =>
+    -- account 0x1 holds only the contract itself
+    let es := validate [("0000000000000001", ["C"])] o n
+    let model := renderErrs es
+    let tags := "e2e" :: (if es.isEmpty then ["accepted"] else dedup (es.map Err.name))
+    if go.startsWith "setup:" then .skip ("e2e-" ++ ((go.splitOn ":").getD 1 "setup"))
+    else if go.startsWith "notchecked:" then .skip "e2e-new-code-rejected-by-checker"
+    else if go.startsWith "accepted bad=" then
+      let cls := match o.root, n.root with
+        | some a, some b => if ifaceConformanceDropped a b then "interface-conformance-removal-accepted" else "stored-value-unusable-after-accepted-update"
+        | _, _ => "stored-value-unusable-after-accepted-update"
+      .violation cls "after an accepted update every stored value loads, has the declared fields, keeps its enum case and its interfaces" tags
+    else if go.startsWith "accepted " then
+      if es.isEmpty then .ok ("!nt" :: tags) else .modelDiff model tags
+    else if go.startsWith "rejected:" then
+      if "err:" ++ (go.drop 9).toString == model then .ok ("!nt" :: tags) else .modelDiff model tags
+    else .modelDiff model tags
+  | _, _ => .skip "unreadable-sx"
+
 def judge (op : List String) (go : String) : Verdict :=
   match op with
   | ["update", "v", names, oldSX, newSX, _, _] => judgeV names oldSX newSX go
+  | ["update", "e2e", _, oldSX, newSX, _, _, _, _] => judgeE2E oldSX newSX go
   | _ => .skip "unknown-op"
 
 def main : IO Unit := runDriver judge
